@@ -1545,7 +1545,13 @@ where
                                 });
                             }
 
-                            obj.put(DataElement::new(*tag, vr, DataSetSequence::empty()));
+                            // a data set sequence is always recorded with VR SQ,
+                            // even if the attribute is unknown to the dictionary
+                            obj.put(DataElement::new(
+                                *tag,
+                                VR::SQ,
+                                DataSetSequence::empty(),
+                            ));
                         } else {
                             return Err(ApplyError::MissingSequence {
                                 selector: selector.clone(),
